@@ -830,9 +830,13 @@ def part_stab(sh, np, ode, rec, params):
                 # (a) free response from d0
                 d0 = r.standard_normal(n)
                 sol = ts.tsolve(np.zeros((n, nt)), d0)
-                amp0 = np.abs(d0).max()
+                # bounded in the ENERGY norm sqrt(u'Ku) (a massless DOF is slaved statically
+                # to the others and may legitimately move more than 10 x max|d0| when its
+                # own stiffness is small; the strain energy cannot grow)
+                Ks_ = (K + K.T) / 2
+                amp0 = float(np.sqrt(max(d0 @ Ks_ @ d0, 0.0)))
                 sh.count("mon:stab-free-bounded")
-                mx = np.abs(sol.d).max()
+                mx = float(np.sqrt(np.einsum("it,ij,jt->t", sol.d, Ks_, sol.d).max()))
                 sh.worst("stab-free max|u|/(10*|u0|)", mx / (10 * amp0))
                 if not mx <= 10 * amp0:
                     sh.violation("stab-free-bounded", case,
@@ -840,9 +844,10 @@ def part_stab(sh, np, ode, rec, params):
                 # (b) step load from rest
                 f = kd.mean() * r.standard_normal(n)
                 sol = ts.tsolve(f[:, None] * np.ones((1, nt)))
-                stat = np.abs(np.linalg.solve(K, f)).max()
+                us_ = np.linalg.solve(K, f)
+                stat = float(np.sqrt(max(us_ @ Ks_ @ us_, 0.0)))
                 sh.count("mon:stab-step-bounded")
-                mx = np.abs(sol.d).max()
+                mx = float(np.sqrt(np.einsum("it,ij,jt->t", sol.d, Ks_, sol.d).max()))
                 sh.worst("stab-step max|u|/(10*static)", mx / (10 * stat))
                 if not mx <= 10 * stat:
                     sh.violation("stab-step-bounded", case,
